@@ -148,6 +148,23 @@ def run(ctx):
     for i, (argv, what) in enumerate(flagcases):
         runs.append(Run("f%d" % i, {"in/s.json": good, "out/gen.go": "ORIGINAL\n"}, argv))
         meta.append(("flags", what, (), argv, "file"))
+    # several input files: one ungeneratable schema anywhere in the argument list fails the whole run
+    import itertools
+    g1 = json.dumps(FIXED_BASES[0])
+    g2 = json.dumps(FIXED_BASES[1])
+    bads = {"badtype.json": json.dumps(put(FIXED_BASES[0], ("properties", "a"), {"type": "strng"})),
+            "badref.json": json.dumps(put(FIXED_BASES[1], ("properties", "l", "items"), {"$ref": "#/$defs/Nope"})),
+            "garbage.json": "{\"type\": "}
+    k = 0
+    for badname, badtext in bads.items():
+        for seq in (["good1.json", badname], [badname, "good1.json"], ["good1.json", badname, "good2.json"], [badname, "good1.json", "good2.json"],
+                    ["good1.json", "good2.json", badname], [badname, badname]):
+            for mode in ("file", "stdout"):
+                k += 1
+                files = {"in/good1.json": g1, "in/good2.json": g2, "in/" + badname: badtext, "out/gen.go": "ORIGINAL\n"}
+                argv = ["-p", "pkg"] + (["-o", "out/gen.go"] if mode == "file" else []) + ["in/" + x for x in seq]
+                runs.append(Run("m%d" % k, files, argv))
+                meta.append(("multi-input", "%s in %s" % (badname, seq), (), seq, mode))
     # runs that must succeed completely
     succ = []
     for bi, base in enumerate(bases):
@@ -168,7 +185,7 @@ def run(ctx):
             continue
         case = {"kind": "cli", "family": fam, "what": name, "position": list(path), "files": {k: (v if isinstance(v, str) else v.decode("latin-1")) for k, v in r.files.items()},
                 "argv": r.argv}
-        if fam in ("injection", "garbage-json", "garbage-yaml", "flags"):
+        if fam in ("injection", "garbage-json", "garbage-yaml", "flags", "multi-input"):
             if fam == "garbage-json" and r.status == 0:
                 # a JSON value that is not an object: accepted by the decoder as "no schema": the property asks for a clean outcome either way
                 if r.timed_out or r.panicked:
@@ -197,7 +214,7 @@ def run(ctx):
     ctx.cov["rule"] = ("injection: 7 fixed + random in-guard schemas, every property / item / definition / allOf-anyOf-branch-property position (guard G18: typed ancestors), "
                        "each given one of 10 ungeneratable elements (unknown type, missing definition in both spellings, missing file, empty enum typed/untyped, non-primitive enum, "
                        "non-number in an integer enum), with -o FILE (pre-existing output) and with stdout; garbage: 18 byte strings as .json, 8 as .yaml; flags: 11 malformed "
-                       "invocations; success: every base schema to a file in a new directory and to stdout; each run is a separate process under a timeout; "
+                       "invocations; multi-input: a bad file (unknown type, missing definition, truncated JSON) at every position among good files, to a file and to stdout; success: every base schema to a file in a new directory and to stdout; each run is a separate process under a timeout; "
                        "observables: exit status, stdout, stderr, directory before/after; non-trivial = every run; distinct by hash")
     r = runs[3]
     ctx.sample({"family": meta[3][0], "what": meta[3][1], "position": list(meta[3][2]), "argv": r.argv, "status": r.status, "stderr": r.stderr.decode("utf-8", "replace")[:200]})
